@@ -11,3 +11,17 @@ func verifSingleStepHandler(op byte) func(*Interpreter, ProgramCounter, ProgramC
 	}
 	return execInstructions[op]
 }
+
+// verifStepPair executes ONE instruction (opcode op at pc of the shared program, skip distance skipLen — both
+// engines obtain it from skip(pc, bitmask)) with the handler of each engine: on machine a exactly as the pre-decoded
+// engine does it (operands decoded once by decodeOperands from the code, then the instrMeta handler), on machine b as
+// the single-step engine does it (handler from execInstructions decoding its operands in place). It exists so that
+// the contract checker can state "same exit, same counter, same registers" as one postcondition over the real
+// handlers of both engines (C02). Compiled only with the `verif` build tag.
+func verifStepPair(op byte, a, b *Interpreter, pc ProgramCounter, skipLen uint8) (ra ExitReason, pa ProgramCounter, rb ExitReason, pb ProgramCounter) {
+	instr := InstrMeta{PC: pc, Opcode: op, SkipLen: skipLen}
+	decodeOperands(&instr, a.Program.InstructionData, a.Program.Bitmasks)
+	ra, pa = instrMetaExecForOpcode(op)(a, &instr)
+	rb, pb = execInstructions[op](b, pc, ProgramCounter(skipLen))
+	return
+}
